@@ -836,7 +836,8 @@ fn create_archive(
         return Ok(());
     }
 
-    Ok(())
+    // The legacy batch pipeline has been removed; do not report success without writing an archive.
+    anyhow::bail!("--batch (legacy batch mode) is no longer supported; run without --batch")
 }
 
 fn write_bin<P: AsRef<Path>>(path: P, data: &[u8]) -> Result<()> {
